@@ -75,7 +75,7 @@ func TestVerifC24Cluster(t *testing.T) {
 			t.Fatalf("create index: %v", err)
 		}
 		defer c[coord].API.DeleteIndex(ctx, index)
-		if _, err := c[coord].API.CreateField(ctx, index, "f", pilosa.OptFieldTypeSet(pilosa.CacheTypeNone, 0), pilosa.OptFieldKeys()); err != nil {
+		if _, err := vrcCreateField(c[coord].API, index, "f", pilosa.OptFieldTypeSet(pilosa.CacheTypeNone, 0), pilosa.OptFieldKeys()); err != nil {
 			t.Fatal(err)
 		}
 		cs := &c24cCase{}
@@ -345,7 +345,7 @@ func TestVerifC24ClusterLeave(t *testing.T) {
 		if _, err := c[coord].API.CreateIndex(ctx, "k", pilosa.IndexOptions{Keys: true}); err != nil {
 			t.Fatal(err)
 		}
-		if _, err := c[coord].API.CreateField(ctx, "k", "f", pilosa.OptFieldTypeSet(pilosa.CacheTypeNone, 0), pilosa.OptFieldKeys()); err != nil {
+		if _, err := vrcCreateField(c[coord].API, "k", "f", pilosa.OptFieldTypeSet(pilosa.CacheTypeNone, 0), pilosa.OptFieldKeys()); err != nil {
 			t.Fatal(err)
 		}
 		var steps []string
